@@ -69,22 +69,17 @@ pub struct Expect
     pub class : String,
 }
 
-/* Run the history, then serve its ruler directory; `fixed_requests`: replay. */
-pub fn run_case(case : &Case, seed : u64, fixed_requests : Option<&Vec<(String, String, String)>>, mut stats : Option<&mut Stats>) -> (Vec<Violation>, Vec<(String, String, String)>)
+/* reference model of a ruler directory: independent listing of the simulated disk + harness record */
+pub struct RefModel
 {
-    let mut out = vec![];
-    let mut runner = Runner::new(case);
-    while !runner.done()
-    {
-        if let Some(inv) = runner.step()
-        {
-            if let Some(s) = stats.as_deref_mut() { s.inc("c19.history_invocations"); }
-            runner.absorb(&inv);
-        }
-    }
-    let disk = runner.world.snapshot().0;
+    pub cache : BTreeMap<String, Vec<u8>>,
+    pub rule_pairs : BTreeMap<(String, String), Vec<u8>>,
+    pub secrets : Vec<(String, Vec<u8>)>,
+}
 
-    // reference model of the directory: independent listing of the simulated disk
+fn ref_model(runner : &Runner) -> RefModel
+{
+    let disk = runner.world.snapshot().0;
     let cache : BTreeMap<String, Vec<u8>> = cache_contents(&disk).into_iter()
         .map(|(p, c)| (p[cache_dir().len() + 1..].to_string(), (*c).clone())).collect();
     // recorded (rule, sources) pairs, named the way ruler's own client names them
@@ -110,9 +105,55 @@ pub fn run_case(case : &Case, seed : u64, fixed_requests : Option<&Vec<(String, 
     let secrets : Vec<(String, Vec<u8>)> = disk.image().files.into_iter()
         .filter(|(p, c, _, _)| !p.starts_with(&format!("{}/", cache_dir())) && c.len() > 0 && !cached_bytes.contains(c))
         .map(|(p, c, _, _)| (p, c)).collect();
+    RefModel{ cache, rule_pairs, secrets }
+}
+
+fn history_file_name(id : &(Vec<String>, Vec<String>, Vec<String>)) -> String
+{
+    Rule::new(id.0.clone(), id.1.clone(), id.2.clone()).get_ticket().human_readable()
+}
+
+fn run_ops(runner : &mut Runner, upto : usize, mut stats : Option<&mut Stats>)
+{
+    while runner.next_op < upto && !runner.done()
+    {
+        if let Some(inv) = runner.step()
+        {
+            if let Some(s) = stats.as_deref_mut() { s.inc("c19.history_invocations"); }
+            runner.absorb(&inv);
+        }
+    }
+}
+
+/* Run the history, serve its ruler directory, and let the last `k` operations of the history happen
+   while the server is up (at the "OP" pseudo-requests).  `fixed_requests`: replay. */
+pub fn run_case(case : &Case, seed : u64, fixed_requests : Option<&Vec<(String, String, String)>>, mut stats : Option<&mut Stats>) -> (Vec<Violation>, Vec<(String, String, String)>)
+{
+    let mut out = vec![];
+    let mut rng = Rng::derive(seed, 9);
+    let k = match fixed_requests
+    {
+        Some(r) => std::cmp::min(r.iter().filter(|(m, _, _)| m == "OP").count(), case.ops.len()),
+        None => std::cmp::min(rng.below(3) as usize, case.ops.len().saturating_sub(1)),
+    };
+    let pre = case.ops.len() - k;
+
+    // dry run: the reference model of the directory in every phase (the simulation is deterministic,
+    // so the real run below goes through exactly the same states)
+    let mut refs : Vec<RefModel> = vec![];
+    {
+        let mut dry = Runner::new(case);
+        dry.namer = Some(history_file_name);
+        run_ops(&mut dry, pre, None);
+        refs.push(ref_model(&dry));
+        for j in 0..k
+        {
+            run_ops(&mut dry, pre + j + 1, None);
+            refs.push(ref_model(&dry));
+        }
+    }
 
     // request sequence
-    let mut rng = Rng::derive(seed, 9);
     let mut reqs : Vec<(String, String)> = vec![];
     let mut classes : Vec<String> = vec![];
     match fixed_requests
@@ -120,70 +161,87 @@ pub fn run_case(case : &Case, seed : u64, fixed_requests : Option<&Vec<(String, 
         Some(r) => { reqs = r.iter().map(|(m, p, _)| (m.clone(), p.clone())).collect(); classes = r.iter().map(|(_, _, c)| c.clone()).collect(); },
         None =>
         {
-            let some_valid = cache.keys().next().cloned().unwrap_or(random_name(&mut rng));
-            let mut valid : Vec<(String, String, String)> = vec![];
-            for name in cache.keys() { valid.push(("GET".to_string(), format!("/files/{}", name), "cached-hash".to_string())); }
-            for (r, s) in rule_pairs.keys() { valid.push(("GET".to_string(), format!("/rules/{}/{}", r, s), "recorded-pair".to_string())); }
-            // (state files are excluded from the *requests*: their byte order differs between
-            //  processes; they stay in the never-serve check below)
-            for (_, c) in secrets.iter().filter(|(p, _)| !p.starts_with(&format!("{}/", RULER_DIR))).take(12) { valid.push(("GET".to_string(), format!("/files/{}", cache_name_of(c)), "hash-of-uncached-file".to_string())); }
-            for _ in 0..4 { valid.push(("GET".to_string(), format!("/files/{}", random_name(&mut rng)), "absent-name".to_string())); }
+            // names from every phase: what is present later is requested early (404 then) and vice versa
+            let mut cache_names : BTreeSet<String> = BTreeSet::new();
+            let mut pair_names : BTreeSet<(String, String)> = BTreeSet::new();
+            let mut secret_hashes : BTreeSet<String> = BTreeSet::new();
+            for r in refs.iter()
+            {
+                cache_names.extend(r.cache.keys().cloned());
+                pair_names.extend(r.rule_pairs.keys().cloned());
+                // (state files are excluded from the *requests*: their byte order differs between
+                //  processes; they stay in the never-serve check below)
+                for (_, c) in r.secrets.iter().filter(|(p, _)| !p.starts_with(&format!("{}/", RULER_DIR))).take(12) { secret_hashes.insert(cache_name_of(c)); }
+            }
+            let some_valid = cache_names.iter().next().cloned().unwrap_or(random_name(&mut rng));
+            let mut phase_reqs : Vec<(String, String, String)> = vec![];
+            for name in cache_names.iter() { phase_reqs.push(("GET".to_string(), format!("/files/{}", name), "cached-hash".to_string())); }
+            for (r, s) in pair_names.iter() { phase_reqs.push(("GET".to_string(), format!("/rules/{}/{}", r, s), "recorded-pair".to_string())); }
+            for h in secret_hashes.iter() { phase_reqs.push(("GET".to_string(), format!("/files/{}", h), "hash-of-uncached-file".to_string())); }
             // 43 valid characters whose value is a present hash + 2^256: too large, must be rejected
-            for name in cache.keys()
+            for name in cache_names.iter()
             {
-                if let Some(alias) = super::super::util::alias_beyond_256_bits(name)
-                {
-                    valid.push(("GET".to_string(), format!("/files/{}", alias), "present-hash-plus-2^256".to_string()));
-                }
+                if let Some(alias) = super::super::util::alias_beyond_256_bits(name) { phase_reqs.push(("GET".to_string(), format!("/files/{}", alias), "present-hash-plus-2^256".to_string())); }
             }
-            for (r, s) in rule_pairs.keys()
+            for (r, s) in pair_names.iter()
             {
-                if let Some(alias) = super::super::util::alias_beyond_256_bits(r) { valid.push(("GET".to_string(), format!("/rules/{}/{}", alias, s), "present-rule-plus-2^256".to_string())); }
-                if let Some(alias) = super::super::util::alias_beyond_256_bits(s) { valid.push(("GET".to_string(), format!("/rules/{}/{}", r, alias), "present-sources-plus-2^256".to_string())); }
+                if let Some(alias) = super::super::util::alias_beyond_256_bits(r) { phase_reqs.push(("GET".to_string(), format!("/rules/{}/{}", alias, s), "present-rule-plus-2^256".to_string())); }
+                if let Some(alias) = super::super::util::alias_beyond_256_bits(s) { phase_reqs.push(("GET".to_string(), format!("/rules/{}/{}", r, alias), "present-sources-plus-2^256".to_string())); }
             }
-            for (r, _) in rule_pairs.keys().take(4) { valid.push(("GET".to_string(), format!("/rules/{}/{}", r, random_name(&mut rng)), "absent-sources".to_string())); }
-            for _ in 0..2 { valid.push(("GET".to_string(), format!("/rules/{}/{}", random_name(&mut rng), random_name(&mut rng)), "absent-rule".to_string())); }
-            rng.shuffle(&mut valid);
             let hostile = hostile_paths(&mut rng, &some_valid);
-            // interleave: after every hostile request a valid one must still be answered
-            let mut hi = 0;
-            for (i, (m, p, c)) in valid.iter().enumerate()
+            for phase in 0..=k
             {
-                reqs.push((m.clone(), p.clone())); classes.push(c.clone());
-                if i % 2 == 0 && hi < hostile.len()
-                {
-                    reqs.push((hostile[hi].0.clone(), hostile[hi].1.clone())); classes.push(hostile[hi].2.to_string());
-                    hi += 1;
-                }
-            }
-            while hi < hostile.len()
-            {
-                reqs.push((hostile[hi].0.clone(), hostile[hi].1.clone())); classes.push(hostile[hi].2.to_string());
-                hi += 1;
-                if let Some((m, p, c)) = valid.get(hi % std::cmp::max(1, valid.len()))
+                if phase > 0 { reqs.push(("OP".to_string(), format!("{}", pre + phase - 1))); classes.push("op".to_string()); }
+                let mut valid = phase_reqs.clone();
+                for _ in 0..4 { valid.push(("GET".to_string(), format!("/files/{}", random_name(&mut rng)), "absent-name".to_string())); }
+                for (r, _) in pair_names.iter().take(4) { valid.push(("GET".to_string(), format!("/rules/{}/{}", r, random_name(&mut rng)), "absent-sources".to_string())); }
+                for _ in 0..2 { valid.push(("GET".to_string(), format!("/rules/{}/{}", random_name(&mut rng), random_name(&mut rng)), "absent-rule".to_string())); }
+                rng.shuffle(&mut valid);
+                // interleave: after every hostile request a valid one must still be answered
+                let share : Vec<&(String, String, &'static str)> = hostile.iter().enumerate().filter(|(i, _)| i % (k + 1) == phase).map(|(_, h)| h).collect();
+                let mut hi = 0;
+                for (i, (m, p, c)) in valid.iter().enumerate()
                 {
                     reqs.push((m.clone(), p.clone())); classes.push(c.clone());
+                    if i % 2 == 0 && hi < share.len()
+                    {
+                        reqs.push((share[hi].0.clone(), share[hi].1.clone())); classes.push(share[hi].2.to_string());
+                        hi += 1;
+                    }
+                }
+                while hi < share.len()
+                {
+                    reqs.push((share[hi].0.clone(), share[hi].1.clone())); classes.push(share[hi].2.to_string());
+                    hi += 1;
+                    if let Some((m, p, c)) = valid.get(hi % std::cmp::max(1, valid.len()))
+                    {
+                        reqs.push((m.clone(), p.clone())); classes.push(c.clone());
+                    }
                 }
             }
+            // only request-targets that can travel over HTTP at all
+            let mut keep_r = vec![];
+            let mut keep_c = vec![];
+            for ((m, p), c) in reqs.iter().zip(classes.iter())
+            {
+                if m == "OP" || p.parse::<warp::http::Uri>().is_ok() { keep_r.push((m.clone(), p.clone())); keep_c.push(c.clone()); }
+            }
+            reqs = keep_r;
+            classes = keep_c;
         },
     }
 
-    // only request-targets that can travel over HTTP at all
-    if fixed_requests.is_none()
-    {
-        let mut keep_r = vec![];
-        let mut keep_c = vec![];
-        for ((m, p), c) in reqs.iter().zip(classes.iter())
-        {
-            if p.parse::<warp::http::Uri>().is_ok() { keep_r.push((m.clone(), p.clone())); keep_c.push(c.clone()); }
-        }
-        reqs = keep_r;
-        classes = keep_c;
-    }
-
-    // serve
-    server_sim::set_plan(reqs.clone());
+    // the real run: history up to `pre`, then serve; the remaining operations run at the OP markers
+    let mut runner = Runner::new(case);
+    runner.namer = Some(history_file_name);
+    run_ops(&mut runner, pre, stats.as_deref_mut());
     let sys = runner.world.system();
+    let hook : Box<dyn FnMut()> = Box::new(move ||
+    {
+        let next = runner.next_op + 1;
+        run_ops(&mut runner, next, None);
+    });
+    server_sim::set_plan(reqs.clone(), Some(hook));
     let served = std::panic::catch_unwind(std::panic::AssertUnwindSafe(|| crate::server::serve(sys, RULER_DIR, 0)));
     let plan = server_sim::take_plan();
     let responses = match (served, plan)
@@ -201,9 +259,18 @@ pub fn run_case(case : &Case, seed : u64, fixed_requests : Option<&Vec<(String, 
         },
     };
 
-    let dir_class = format!("{}{}", if cache.len() > 0 { "cache+" } else { "nocache+" }, if rule_pairs.len() > 0 { "pairs" } else { "nopairs" });
+    let mut phase = 0usize;
     for (i, ((method, path), (status, body))) in reqs.iter().zip(responses.iter()).enumerate()
     {
+        if method == "OP"
+        {
+            phase = std::cmp::min(phase + 1, refs.len() - 1);
+            if let Some(s) = stats.as_deref_mut() { s.inc("c19.operations_while_serving"); }
+            continue;
+        }
+        let r = &refs[phase];
+        let (cache, rule_pairs, secrets) = (&r.cache, &r.rule_pairs, &r.secrets);
+        let dir_class = format!("{}{}{}", if cache.len() > 0 { "cache+" } else { "nocache+" }, if rule_pairs.len() > 0 { "pairs" } else { "nopairs" }, if phase > 0 { "+changed-while-serving" } else { "" });
         let class = &classes[i];
         if let Some(s) = stats.as_deref_mut()
         {
@@ -232,6 +299,7 @@ pub fn run_case(case : &Case, seed : u64, fixed_requests : Option<&Vec<(String, 
                 else { Some((404, None)) }
             }
             else { Some((404, None)) };
+        let when = if phase > 0 { format!(" (after {} operation(s) ran while the server was up)", phase) } else { "".to_string() };
 
         match &expected
         {
@@ -240,12 +308,12 @@ pub fn run_case(case : &Case, seed : u64, fixed_requests : Option<&Vec<(String, 
                 if *status != 200
                 {
                     out.push(Violation{ prop : "C19", sig : format!("C19:present-but-{}:{}", status, if path.starts_with("/files/") { "file" } else { "rule" }),
-                        detail : format!("request {} {} {}: expected 200 with {} bytes, got status {}", i, method, path, b.len(), status) });
+                        detail : format!("request {} {} {}{}: expected 200 with {} bytes, got status {}", i, method, path, when, b.len(), status) });
                 }
                 else if body != b
                 {
                     out.push(Violation{ prop : "C19", sig : format!("C19:wrong-body:{}", if path.starts_with("/files/") { "file" } else { "rule" }),
-                        detail : format!("request {} {} {}: expected body {}, got {}", i, method, path, super::super::util::show_bytes(b), super::super::util::show_bytes(body)) });
+                        detail : format!("request {} {} {}{}: expected body {}, got {}", i, method, path, when, super::super::util::show_bytes(b), super::super::util::show_bytes(body)) });
                 }
             },
             Some((404, _)) =>
@@ -253,7 +321,7 @@ pub fn run_case(case : &Case, seed : u64, fixed_requests : Option<&Vec<(String, 
                 if *status != 404
                 {
                     out.push(Violation{ prop : "C19", sig : format!("C19:absent-or-malformed-but-{}:{}", status, class),
-                        detail : format!("request {} {} {}: expected 404, got status {} with body {}", i, method, path, status, super::super::util::show_bytes(body)) });
+                        detail : format!("request {} {} {}{}: expected 404, got status {} with body {}", i, method, path, when, status, super::super::util::show_bytes(body)) });
                 }
             },
             _ => {},
@@ -266,7 +334,7 @@ pub fn run_case(case : &Case, seed : u64, fixed_requests : Option<&Vec<(String, 
                 if c == body && !p.starts_with(&format!("{}/history/", RULER_DIR))
                 {
                     out.push(Violation{ prop : "C19", sig : "C19:served-file-outside-cache".to_string(),
-                        detail : format!("request {} {} {}: the response body is the content of {}", i, method, path, p) });
+                        detail : format!("request {} {} {}{}: the response body is the content of {}", i, method, path, when, p) });
                 }
             }
         }
@@ -274,9 +342,10 @@ pub fn run_case(case : &Case, seed : u64, fixed_requests : Option<&Vec<(String, 
     if let Some(s) = stats.as_deref_mut()
     {
         s.end_run();
-        s.add("c19.cache_entries_served", cache.len() as u64);
-        s.add("c19.recorded_pairs_served", rule_pairs.len() as u64);
-        s.inc(&format!("c19.directory.{}", dir_class));
+        let last = refs.last().unwrap();
+        s.add("c19.cache_entries_served", last.cache.len() as u64);
+        s.add("c19.recorded_pairs_served", last.rule_pairs.len() as u64);
+        s.inc(&format!("c19.phases.{}", k + 1));
     }
     (out, with_classes(&reqs, &classes))
 }
@@ -319,6 +388,7 @@ pub fn run_one(cfg : &Config, seed : u64, k : u64, stats : &mut Stats) -> Vec<Fo
         {
             i -= 1;
             budget -= 1;
+            if best[i].0 == "OP" { continue; }
             let mut cand = best.clone();
             cand.remove(i);
             if run_case(&case, seed, Some(&cand), None).0.iter().any(|x| x.sig == v.sig) { best = cand; }
